@@ -39,13 +39,14 @@ def reduce_case(A, fixed_idx):
     B["x0"] = [A["x0"][i] for i in free]
     B["bounds"] = {"form": A["bounds"]["form"], "lb": [A["bounds"]["lb"][i] for i in free],
                    "ub": [A["bounds"]["ub"][i] for i in free]}
-    B["xmap"] = {"kind": "embed", "n_full": n, "fixed": {str(i): FIXV for i in fixed_idx}}
+    fixv = [float(A["bounds"]["lb"][i]) for i in fixed_idx]  # the fixed values (0.5 in the unscaled alphabet)
+    B["xmap"] = {"kind": "embed", "n_full": n, "fixed": {str(i): v for i, v in zip(fixed_idx, fixv)}}
     cons = []
     for c in A["cons"]:
         c = copy.deepcopy(c)
         if c["kind"] == "lin":
             Am = np.array(c["A"], float)
-            shift = Am[:, fixed_idx] @ np.full(len(fixed_idx), FIXV)
+            shift = Am[:, fixed_idx] @ np.array(fixv)
             c["A"] = Am[:, free].tolist()
             c["lb"] = (np.array(c["lb"], float) - shift).tolist()
             c["ub"] = (np.array(c["ub"], float) - shift).tolist()
